@@ -721,7 +721,16 @@ def correspond(ctx):
                 "values above the maximum are queried.  REPRESENTATION drawn per case for both inputs: lists of Python "
                 "ints / floats / bools / numpy scalars of every dtype (homogeneous or mixed per element), tuples (must raise "
                 "the documented TypeError), ndarrays of int8..int64, uint8..uint64, bool, float16/32/64, read-only and "
-                "non-contiguous; every query a scalar of a drawn type.  Restriction: the numbers compared with each other "
+                "non-contiguous, ndarray subclass views, ndarrays of dtype object holding the same scalars; generators / iter(list) / "
+                "map objects / tuples must raise the documented TypeError (the docs accept `list or numpy.ndarray` only); "
+                "every query a scalar of a drawn type.  DEVICES drawn per case: the sample / the edge object / the constructed "
+                "CentralityClasses object are replaced by their copy.copy / copy.deepcopy / pickle round trip before use (the "
+                "copy is what is judged, against the same model and reference, and against the plainly constructed original); "
+                "the class is a trivial subclass; construction and queries run after os.chdir into a fresh empty directory with "
+                "non-default numpy print options, np.seterr(all='warn') and advanced global random / np.random states, which "
+                "(with the directory's contents) must be left as found.  Not applied: output_centrality_classes (the statement "
+                "speaks of get_centrality_class, dNchdetaMin_/Max_ and the cleaned edges only) and text variants (the surface "
+                "takes no text).  Restriction: the numbers compared with each other "
                 "in one case (multiplicities + queries; edges among themselves) are exact in every floating type occurring "
                 "among them, and where a value is not a double int64-family and uint64 are not mixed - i.e. magnitudes "
                 "above 2^53 meet integer-kind scalars only (numpy's lossy int<->float comparison is outside the property's "
@@ -959,6 +968,14 @@ def _oracle_check(sample, edges, srep, erep, dev, n, cleaned, R, N, srt, leading
             return ("representation", f"[{rtag}] the same numbers as plain Python lists give other classes: "
                     f"min {obj.dNchdetaMin_!r} vs {obj3.dNchdetaMin_!r}",
                     dict(repr_min=[repr(m) for m in obj.dNchdetaMin_], plain_min=[repr(m) for m in obj3.dNchdetaMin_]))
+        # ... and a copied / unpickled / subclass object answers as the plainly constructed original does
+        if dev != NO_DEV:
+            obj0 = real_obj(build_rep(srep, sample), build_rep(erep, edges))
+            diff = [jv(q) for q, t in zip(qs, qt) if obj0.get_centrality_class(mk(t, q)) != cls[q]]
+            if stored(obj0) != (smin, smax) or diff:
+                return ("copy", f"[{rtag}] the object delivered by the devices differs from the plainly constructed one: "
+                        f"min {obj.dNchdetaMin_!r} vs {obj0.dNchdetaMin_!r}, queries answered differently: {diff[:5]}",
+                        dict(queries=diff[:10]))
     except Exception as e:  # an admissible input must not raise
         return ("exception", f"[{rtag}] admissible input raises {type(e).__name__}: {e}", dict(exception=type(e).__name__))
     return None
